@@ -135,15 +135,33 @@ def coq_make():
         sh(["coq_makefile", "-f", "_CoqProject", "-o", "Makefile"], cwd=COQ, check=True)
     rc, out = sh("timeout 3000 make -k -j16 TIMED=1 2>&1", cwd=COQ, timeout=3100)
     ok, failed = [], []
+    status = {}
+
+    def good(v):
+        """a .vo counts only if it is newer than its source AND than the .vo of everything it depends on
+        (make -k leaves a stale .vo in place when a re-proof fails)"""
+        if v in status:
+            return status[v]
+        status[v] = False
+        vo = os.path.join(COQ, v[:-2] + ".vo")
+        src = os.path.join(COQ, v)
+        if not (os.path.exists(vo) and os.path.exists(src)):
+            return False
+        t = os.path.getmtime(vo)
+        if t < os.path.getmtime(src):
+            return False
+        for d in coq_deps(v):
+            if d == v:
+                continue
+            dvo = os.path.join(COQ, d[:-2] + ".vo")
+            if not good(d) or not os.path.exists(dvo) or os.path.getmtime(dvo) > t:
+                return False
+        status[v] = True
+        return True
     for v in coq_files():
         if v == "Extract.v":
             continue
-        vo = os.path.join(COQ, v[:-2] + ".vo")
-        src = os.path.join(COQ, v)
-        if os.path.exists(vo) and os.path.exists(src) and os.path.getmtime(vo) >= os.path.getmtime(src):
-            ok.append(v)
-        else:
-            failed.append(v)
+        (ok if good(v) else failed).append(v)
     with open(os.path.join(WORK, "coq_make.log"), "w") as f:
         f.write(out)
     return ok, failed, out
@@ -247,7 +265,7 @@ def coq_deps(vfile):
         if not os.path.exists(p):
             continue
         txt = open(p).read()
-        for m in re.finditer(r"From UV Require (?:Import|Export)?([^.]*(?:\.[A-Za-z_][^.\s]*)*)\.", txt):
+        for m in re.finditer(r"From UV Require (?:Import |Export )?(.*?)\.(?:\s|$)", txt, flags=re.S):
             for name in m.group(1).split():
                 cand = name.replace(".", "/") + ".v"
                 if os.path.exists(os.path.join(COQ, cand)):
